@@ -219,7 +219,7 @@ def run(chk, replay=None):
                 u += 1
                 c.append({'u': u, 'b': rng.randint(1, 4), 'm': True, 's': True})
             cats.append(c)
-        conf = {'src': rng.choice(['list', 'store', 'nostore']), 'filt': False, 'spat': False}
+        conf = {'src': rng.choice(['list', 'store', 'nostore']) if t % 3 != 2 else 'list', 'filt': False, 'spat': False}
         fcst = build_forecast(world, conf, cats, path)
         n = rng.choice(sizes + [0, 4, 6])
         from csep.core.catalogs import CSEPCatalog
@@ -230,6 +230,8 @@ def run(chk, replay=None):
             for c_ in fcst:
                 c_.catalog = c_.catalog[::2]
             sizes = [(sz + 1) // 2 for sz in sizes]
+            n = rng.choice(sizes + [0, 2])
+            obs = CSEPCatalog(data=[('o%d' % i, 10 ** 12 + i, 0.5, 0.5 + (i % 2), 5.0, 4.5) for i in range(n)], region=world.make_region())
         r = guarded(ce.number_test, fcst, obs, verbose=False)
         chk.count()
         if isinstance(r, Raised):
